@@ -803,8 +803,8 @@ func generate(x *hist, r *hx.Rng, inject int, g, unknownKey int, c15 bool) {
 			x.proposal("reset", 0)
 		}
 		if r.Chance(15) { // a passed SetNetworkProperty proposal: the settings move up and down, also to invalid values
-			which := r.Intn(5)
-			vals := [][]uint64{{0, 1, 2, 3, 5}, {0, 1, 2, 3, 4, 6}, {0, 1, 3, 10}, {0, 1, 10, 60, 600}, {0, 10, 60, 600, 3000000}}[which]
+			which := r.Intn(6)
+			vals := [][]uint64{{0, 1, 2, 3, 5}, {0, 1, 2, 3, 4, 6}, {0, 1, 3, 10}, {0, 1, 10, 60, 600}, {0, 10, 60, 600, 3000000}, {0, 1, 2, 3, 4, 7}}[which]
 			x.setProp(which, vals[r.Intn(len(vals))])
 		}
 		x.end()
